@@ -386,9 +386,14 @@ def step(W, name, args, rec, judge, ctx, wit, before_vars):
         fresh = P.CellVariable(W.m, np.array(v.value, copy=True), copy.deepcopy(v.BCs))
         terms = W.terms()
         snap_terms = [t.data.tobytes() if hasattr(t, "data") and not isinstance(t, np.ndarray) else np.asarray(t).tobytes() for t in terms]
-        P.solvePDE(fresh, terms)
+        ids_terms = [id(t) for t in terms]
+        P.solvePDE(fresh, list(terms))
         ret = P.solvePDE(v, terms)
         judge.solves += 1
+        if [id(t) for t in terms] != ids_terms:
+            # the caller's list itself is an input: same length, same objects
+            judge.bad("C15_Pure", dict(ctx, action="solvePDE", what="term list modified"), wit)
+            terms = terms[:len(ids_terms)]
         same = bool(np.array_equal(np.asarray(v._value), np.asarray(fresh._value)))
         if ret is not v:
             judge.bad("C09_InPlace", dict(ctx), wit)
